@@ -70,6 +70,16 @@ def cases(ctx):
         n = rng.randint(6, 60 if ctx.quick() else 200)
         A = gen.matrix(rng, kind, n)
         cid += 1
+        if k % 5 == 4:
+            # relaxed supernodes whose columns do not form a path in the etree, under a pipelined stem (see gen.py "bushy")
+            n0 = rng.randint(5, 30 if ctx.quick() else 90)
+            A = gen.matrix(rng, "bushy", n0)
+            out.append(dict(id=cid, driver="gstrf", m=A["n"], n=A["n"], colptr=A["colptr"], rowind=A["rowind"], vals=A["vals"],
+                            nrhs=1, rhs=[1.0] * A["n"], nprocs=rng.choice([2, 3, 4]), colperm=0,
+                            ienv=[rng.choice([1, 2]), gen.bushy_relax(n0), rng.choice([8, 200]), rng.choice([2, 200]), rng.choice([2, 100]), -50, -50, -30],
+                            thresh=rng.choice([1.0, 0.1]), perturb=[rng.randint(1, 10 ** 6), rng.choice([0.3, 0.7]), rng.choice([30, 200, 1000])],
+                            trace=1, dumplu=1, timeout=90, kind="bushy"))
+            continue
         out.append(dict(id=cid, driver="gstrf", m=A["n"], n=A["n"], colptr=A["colptr"], rowind=A["rowind"], vals=A["vals"],
                         nrhs=1, rhs=[1.0] * A["n"], nprocs=rng.choice([2, 3, 4, 8]), colperm=rng.choice([0, 1, 2, 3]),
                         ienv=[rng.choice([1, 2, 3, 4, 8]), rng.choice([1, 2, 4, 6]), rng.choice([2, 4, 8, 200]),
@@ -108,7 +118,7 @@ def compare_seq(ctx, exe, c, r):
 
 def run(ctx):
     ctx.cov["rule"] = ("lock-step as C04 (forests n<=6 exhaustive x w,relax 1..3 x P 2..3, sampled n=7/8, random walks); threaded "
-                       "traces: structured matrices n<=60 (thorough 200), nprocs 2..8, all orderings, small panel/supernode/blocking "
+                       "traces: structured matrices n<=60 (thorough 200) incl. relaxed supernodes with several leaves under a pipelined stem, nprocs 2..8, all orderings, small panel/supernode/blocking "
                        "parameters to force pipelining and 2-D blocking, seeded delays at every hook; non-trivial = at least one "
                        "busy-chain read or >= 2 panels; distinct by matrix hash + parameters")
     ctx.coq_properties()
